@@ -1451,6 +1451,10 @@ class Emitter:
             # rest of the block is translated with `w` read as `f` (writes through `w` are writes to `f`)
             a, b = s.pat.name, s.init.segs[0]
             return self.stmts([rename_ident(x, a, b) for x in stmts[i + 1:]], 0, rename_ident(tail, a, b) if tail is not None else None, env, k)
+        if (s.kind == "let" and s.init is not None and s.els is None and s.pat.kind == "pident" and s.pat.mut
+                and self.lazy_iter_of(s.init, env) is not None):
+            # `let mut runs = recv.method(args);` on a lazy iterator of the vocabulary (`mut`: it is stepped by hand)
+            return self.let_lazy_cursor(s, env, rest)
         if (s.kind == "let" and s.init is not None and s.els is None and s.pat.kind == "pident" and s.init.kind == "mcall" and s.init.name == "map"
                 and len(s.init.args) == 1 and s.init.args[0].kind == "closure" and len(s.init.args[0].params) == 1 and self.v.get("iter_conv")):
             # `let mut it = <iterator>.map(closure);` consumed only by `it.next()` / `for x in it` (map_iter_uses)
@@ -2536,6 +2540,17 @@ class Emitter:
                 return conv(0, [], env1)
             return self.exprs(e.args, env, k_args)
 
+        if rv is not None and rv.ty[0] == "lazycur" and e.recv.kind == "path":
+            return self.lazy_cursor_call(e, root, rv, env, k)
+        if name == "try_for_each" and len(e.args) == 1 and e.args[0].kind == "closure" and len(e.args[0].params) == 1:
+            lz = self.lazy_iter_of(e.recv, env)
+            if lz is not None:
+                # `recv.method(args).try_for_each(|x| body)`  is  `for x in recv.method(args) { body?; }` whose value is
+                # the first Err, else Ok(()): the SAME loop term as the `for` spelling, continued by k instead of a return
+                cl = e.args[0]
+                body = N("block", stmts=[N("expr", e=N("try", e=cl.body), semi=True, attrs=[])], tail=None)
+                return self.for_lazy(N("for", pat=cl.params[0][0], iter=e.recv, body=body, label=None), lz, env, k, value=True)
+
         def k_recv(rt, rty, env1):
             tname = rty[1] if rty[0] in ("struct", "enum") else rty[0]
             if rty[0] == "coq":
@@ -2815,6 +2830,11 @@ class Emitter:
                     if r and r in env.vars:
                         if self.method_mutates(x, env):
                             add(r)
+                        if env.vars[r].ty[0] == "lazycur":
+                            # a lazy iterator bound by `let mut`: stepping it advances the cursor AND the receiver
+                            # that it borrows mutably
+                            add(r)
+                            add(env.vars[r].ty[1])
                     # a `&mut` variable passed on by name to a method (as for calls below)
                     for a in x.args:
                         if a.kind == "path" and len(a.segs) == 1 and a.segs[0] in env.vars and env.vars[a.segs[0]].mut == "ref":
@@ -3085,7 +3105,43 @@ class Emitter:
             return None
         return (ent, root, it)
 
-    def for_lazy(self, e, lz, env, k):
+    def let_lazy_cursor(self, s, env, rest):
+        """`let mut runs = recv.method(args);`: the variable holds the CURSOR (type ("lazycur", receiver, key)); the
+        receiver stays where it is and every `runs.next()` threads it through the vocabulary's step function, exactly
+        as the `for` loop over the same call does (for_lazy)"""
+        ent, root, it = self.lazy_iter_of(s.init, env)
+        rty = env.get(root).ty
+        key = (rty[1] if rty[0] in ("struct", "enum") else rty[0], it.name)
+
+        def k_args(ats, _tys, env1):
+            cur0 = "(%s %s)" % (ent["new"], " ".join(ats)) if ats else ent["new"]
+            cur = self.fresh("it")
+            pre = ""
+            env2 = env1
+            if ent.get("enter"):
+                r0 = self.fresh(env1.get(root).coq.rstrip("0123456789") or root)
+                pre = "let %s := (%s %s) in\n" % (r0, ent["enter"], env1.get(root).coq)
+                env2 = env1.rebind(root, r0)
+            return "%slet %s := %s in\n%s" % (pre, cur, cur0, rest(env2.bind(s.pat.name, cur, ("lazycur", root, key), True)))
+        return self.exprs(it.args, env, k_args)
+
+    def lazy_cursor_call(self, e, name, var, env, k):
+        """`runs.next()` on a cursor bound by let_lazy_cursor: Option<element>; the cursor and the receiver move on"""
+        _tag, root, key = var.ty
+        ent = self.v["lazy_iters"][key]
+        if e.name != "next" or e.args or e.recv.kind != "path" or len(e.recv.segs) != 1:
+            raise EmitError("method %s on a lazy iterator bound by let (only `.next()` is modelled)" % e.name)
+        if env.get(root) is None:
+            raise EmitError("the receiver of the lazy iterator %s is shadowed" % name)
+        if self.pure_mode:
+            raise NeedsBind()
+        o = self.fresh("o")
+        cur1 = self.fresh("it")
+        r1 = self.fresh(env.get(root).coq.rstrip("0123456789") or root)
+        env1 = env.rebind(name, cur1).rebind(root, r1)
+        return "'(%s, %s, %s) <- %s %s %s ;;\n%s" % (o, cur1, r1, ent["next"], var.coq, env.get(root).coq, k(o, ("opt", ent["elt"]), env1))
+
+    def for_lazy(self, e, lz, env, k, value=False):
         ent, root, it = lz
         fuel = self.loop_fuel()
         acc = self.assigned(e.body, env)
@@ -3153,6 +3209,12 @@ class Emitter:
                     r, fuel, fterm, init, after(env1, lambda pat, env5: "let '%s := %s in\n%s" % (pat, r, k("tt", UNIT, env5))))
             r = self.fresh("lr")
             v = self.fresh("rv")
+            if value:
+                # try_for_each: the loop's value is Ok(()) when it ran to the end, else the Err the body `?`-returned
+                return "%s <- while_fuel %s %s %s ;;\nmatch %s with\n| inl %s\n| inr %s\nend" % (
+                    r, fuel, fterm, init, r,
+                    after(env1, lambda pat, env5: "%s =>\n%s" % (pat, ind(k("(inl tt)", ("res", UNIT), env5), 4))),
+                    after(env1, lambda pat, env5: "(%s, %s) =>\n%s" % (pat, v, ind(k(v, ("res", UNIT), env5), 4))))
             return "%s <- while_fuel %s %s %s ;;\nmatch %s with\n| inl %s\n| inr %s\nend" % (
                 r, fuel, fterm, init, r,
                 after(env1, lambda pat, env5: "%s =>\n%s" % (pat, ind(k("tt", UNIT, env5), 4))),
